@@ -11,16 +11,22 @@ open C12Model
 let key_s (k : key) = Printf.sprintf "%c%d" (Char.chr (97 + int_of_nat k.k_flow)) (if k.k_dir then 1 else 0)
 
 let parse_pkt (s : string) : packet =
-  match split_on '.' s with
+  let parts = split_on '.' s in
+  let parts, ts = (match parts with [a; b; c; d] -> [a; b; c], int_of_string d | _ -> parts, 0) in
+  match parts with
   | [hd; sq; hx] when String.length hd >= 3 ->
     let flow = Char.code hd.[0] - 97 and dir = hd.[1] = '1' in
     let fl = String.sub hd 2 (String.length hd - 2) in
     { p_key = { k_flow = nat_of_int flow; k_dir = dir };
       p_syn = String.contains fl 'S'; p_fin = String.contains fl 'F';
-      p_seq = z_of_int (int_of_string sq); p_bytes = bytes_of_hex hx }
+      p_seq = z_of_int (int_of_string sq); p_bytes = bytes_of_hex hx; p_ts = z_of_int ts }
   | _ -> failwith ("c12 packet: " ^ s)
 
-let parse_op (s : string) : op = if s = "fl" then OFlush else OPkt (parse_pkt s)
+let parse_op (s : string) : op =
+  if s = "fl" then OFlush None
+  else if String.length s > 2 && String.sub s 0 2 = "fo" then
+    OFlush (Some (z_of_int (int_of_string (String.sub s 2 (String.length s - 2)))))
+  else OPkt (parse_pkt s)
 
 let chunk_s (c : chunk) =
   Printf.sprintf "%d/%s/%s" (int_of_z c.ch_skip) (hex_of_bytes c.ch_bytes)
@@ -41,10 +47,12 @@ let tag_s = function
   | TgRaceLost -> "lookup-race-lost" | TgBothDir -> "both-directions-race"
   | TgCloseLL -> "close-between-lookup-and-lock" | TgRecycle -> "recycle"
   | TgStale -> "stale-pointer-processed" | TgRetry -> "retry" | TgFlushStale -> "flush-stale"
+  | TgTrail -> "trailing-remove" | TgAgeFlush -> "age-flush"
 
-type 'a inst = { cinit : 'a; cclosed : 'a -> bool;
+type 'a inst = { cinit : 'a; cclosed : 'a -> bool; creset : packet -> 'a;
                  proc : 'a -> bool -> packet -> ('a * cevent list) * bool;
-                 fl : 'a -> ('a * cevent list) * bool;
+                 fl : BinNums.coq_Z option -> 'a -> ('a * cevent list) * bool;
+                 trail : BinNums.coq_Z option -> 'a -> bool;
                  unsup : 'a -> bool }
 
 let final_line (i : 'a inst) (s : 'a state) : string =
@@ -89,12 +97,12 @@ let explore (i : 'a inst) (g : config) (progs : op list list) (maxstates : int) 
       let nt = Stdlib.List.length s.s_thr in
       let any = ref false in
       for t = 0 to nt - 1 do
-        match exec i.cinit i.cclosed i.proc i.fl g s (nat_of_int t) with
+        match exec i.cinit i.cclosed i.creset i.proc i.fl i.trail g s (nat_of_int t) with
         | Some s' -> any := true; go s' (t :: sched) epi
         | None -> ()
       done;
       if not !any then begin
-        if all_done s && not epi then go (add_thread s [OFlush]) sched true
+        if all_done s && not epi then go (add_thread s [OFlush None]) sched true
         else begin
           incr finals;
           if all_done s && not (chk_complete_once_final s) then report "not-completed" sched
@@ -112,7 +120,7 @@ let run_inst (i : 'a inst) (g : config) (progs : op list list) (sched : int list
     (id : string) (out : out_channel) =
   if expl > 0 then explore i g progs expl out id
   else begin
-    let (s, raced) = run_case i.cinit i.cclosed i.proc i.fl g (nat_of_int 3000) progs (Stdlib.List.map nat_of_int sched) in
+    let (s, raced) = run_case i.cinit i.cclosed i.creset i.proc i.fl i.trail g (nat_of_int 3000) progs (Stdlib.List.map nat_of_int sched) in
     let evs = Stdlib.List.filter_map event_s (Stdlib.List.rev s.s_log) in
     let lines = evs @ [final_line i s] in
     Stdlib.List.iteri (fun k l -> Printf.fprintf out "%s\t%d\t%s\n" id k l) lines;
@@ -120,9 +128,8 @@ let run_inst (i : 'a inst) (g : config) (progs : op list list) (sched : int list
     if tags <> [] then Printf.fprintf out "%s\ttags\t%s\n" id (String.concat "," tags)
   end
 
-let is_race_case (ops : string list) = Stdlib.List.exists (fun s -> String.length s > 5 && String.sub s 0 5 = "race:") ops
-
-let parse (ops : string list) : string * op list list * int list * int =
+let run (id : string) (ops : string list) (out : out_channel) =
+  if Stdlib.List.exists (fun s -> String.length s > 5 && String.sub s 0 5 = "race:") ops then () else
   let pkg = ref "t" and progs = ref [] and sched = ref [] and expl = ref 0 in
   Stdlib.List.iter (fun s ->
       match split_on ':' s with
@@ -133,75 +140,15 @@ let parse (ops : string list) : string * op list list * int list * int =
       | ["sched"; v] -> sched := Stdlib.List.map int_of_string (split_on ',' v)
       | ["explore"; v] -> expl := int_of_string v
       | _ -> failwith ("c12 op: " ^ s)) ops;
-  (!pkg, Stdlib.List.rev !progs, !sched, !expl)
-
-let tcp_inst = { cinit = tc_init; cclosed = tc_closed; proc = tcp_process; fl = tcp_flush; unsup = (fun _ -> false) }
-let rsm_inst = { cinit = rc_init; cclosed = rc_closed; proc = rsm_process; fl = rsm_flush; unsup = (fun st -> st.r_unsup) }
-let rsm_cfg (pkg : string) =
+  let progs = Stdlib.List.rev !progs in
   let orig = (try Sys.getenv "C12_RSM_ORIG" = "1" with Not_found -> false) in
-  if orig || pkg = "ro" then cfg_rsm_orig else cfg_rsm
-
-let run (id : string) (ops : string list) (out : out_channel) =
-  if is_race_case ops then () else
-  let (pkg, progs, sched, expl) = parse ops in
-  match pkg with
-  | "t" -> run_inst tcp_inst cfg_tcp progs sched expl id out
-  | "r" | "ro" -> run_inst rsm_inst (rsm_cfg pkg) progs sched expl id out
+  match !pkg with
+  | "t" ->
+    run_inst { cinit = tc_init; cclosed = tc_closed; creset = tcp_reset; proc = tcp_process; fl = tcp_flush; trail = tcp_trail; unsup = (fun _ -> false) }
+      cfg_tcp progs !sched !expl id out
+  | "r" | "ro" ->
+    run_inst { cinit = rc_init; cclosed = rc_closed; creset = rsm_reset; proc = rsm_process; fl = rsm_flush; trail = rsm_trail; unsup = (fun st -> st.r_unsup) }
+      (if orig || !pkg = "ro" then cfg_rsm_orig else cfg_rsm) progs !sched !expl id out
   | v -> failwith ("c12 pkg: " ^ v)
 
 let registered = Registry.register "C12" run
-
-(* ---- extraction cross-check inside Coq (see c18.ml).  The final state is large and polymorphic in the
-   connection state, so the Example states what this glue READS from it: with
-     let '(s, raced) := run_tcp|run_rsm cfg 3000 progs sched
-   the tuple (rev (s_log s), s_tags s, raced, s_conns s, s_free s, map c_stream (s_objs s),
-   (all_done, any_enabled, unsupported), the six chk_* verdicts), computed here with the extracted code,
-   must equal the same projections evaluated by vm_compute. *)
-let coq_key (k : key) = Printf.sprintf "(mkKey %s %s)" (coq_nat k.k_flow) (coq_bool k.k_dir)
-let coq_pkt (p : packet) =
-  Printf.sprintf "(mkPkt %s %s %s %s %s)" (coq_key p.p_key) (coq_bool p.p_syn) (coq_bool p.p_fin) (coq_z p.p_seq) (coq_zlist p.p_bytes)
-let coq_op = function OPkt p -> "OPkt " ^ coq_pkt p | OFlush -> "OFlush"
-let coq_chunk (c : chunk) =
-  Printf.sprintf "mkChunk %s %s %s %s" (coq_zlist c.ch_bytes) (coq_z c.ch_skip) (coq_bool c.ch_start) (coq_bool c.ch_end)
-let coq_cevent = function
-  | CReasm (d, chs) -> Printf.sprintf "(CReasm %s %s)" (coq_bool d) (coq_list coq_chunk chs)
-  | CComplete -> "CComplete"
-let coq_event (e : event) = match e with
-  | ENew (t, k, sid) -> Printf.sprintf "ENew %s %s %s" (coq_nat t) (coq_key k) (coq_nat sid)
-  | ECall (t, sid, c, ce) -> Printf.sprintf "ECall %s %s %s %s" (coq_nat t) (coq_nat sid) (coq_nat c) (coq_cevent ce)
-  | EProc (t, p, c, ck, sid) -> Printf.sprintf "EProc %s %s %s %s %s" (coq_nat t) (coq_pkt p) (coq_nat c) (coq_key ck) (coq_nat sid)
-  | EPanic t -> "EPanic " ^ coq_nat t
-let coq_tag = function
-  | TgRaceLost -> "TgRaceLost" | TgBothDir -> "TgBothDir" | TgCloseLL -> "TgCloseLL" | TgRecycle -> "TgRecycle"
-  | TgStale -> "TgStale" | TgRetry -> "TgRetry" | TgFlushStale -> "TgFlushStale"
-let coq_cfg (g : config) =
-  Printf.sprintf "(mkCfg %s %s %s)" (match g.g_pkg with Tcp -> "Tcp" | Rsm -> "Rsm") (coq_bool g.g_fixme) (coq_bool g.g_recycle)
-
-let to_coq_inst (i : 'a inst) (runname : string) (cinitname : string) (unsupterm : string) (g : config)
-    (progs : op list list) (sched : int list) (idx : int) (out : out_channel) =
-  let fuel = nat_of_int 3000 in
-  let (s, raced) = run_case i.cinit i.cclosed i.proc i.fl g fuel progs (Stdlib.List.map nat_of_int sched) in
-  let gs = coq_cfg g in
-  let lhs = Printf.sprintf
-    "(let '(s, raced) := %s %s %s\n      %s\n      %s in\n   (rev (s_log s), s_tags s, raced, s_conns s, s_free s, map (fun o => c_stream o) (s_objs s),\n    (all_done s, any_enabled _ %s s, %s),\n    (chk_one_entry _ %s %s s, chk_no_panic s, chk_progress _ %s s, chk_right_stream %s s, chk_complete_most_once s, chk_complete_once_final s)))"
-    runname gs (coq_nat fuel) (coq_list (coq_list coq_op) progs) (coq_list coq_nat (Stdlib.List.map nat_of_int sched))
-    cinitname unsupterm cinitname gs cinitname gs in
-  let rhs = Printf.sprintf "(%s,\n     %s, %s, %s, %s, %s,\n     (%s, %s, %s),\n     (%s, %s, %s, %s, %s, %s))"
-    (coq_list coq_event (Stdlib.List.rev s.s_log)) (coq_list coq_tag s.s_tags) (coq_bool raced)
-    (coq_list (coq_pair coq_key coq_nat) s.s_conns) (coq_list coq_nat s.s_free)
-    (coq_list (fun o -> coq_nat o.c_stream) s.s_objs)
-    (coq_bool (all_done s)) (coq_bool (any_enabled i.cinit s)) (coq_bool (Stdlib.List.exists (fun o -> i.unsup o.c_st) s.s_objs))
-    (coq_bool (chk_one_entry i.cinit g s)) (coq_bool (chk_no_panic s)) (coq_bool (chk_progress i.cinit s))
-    (coq_bool (chk_right_stream g s)) (coq_bool (chk_complete_most_once s)) (coq_bool (chk_complete_once_final s)) in
-  coq_example out idx lhs rhs
-
-let to_coq (idx : int) (ops : string list) (out : out_channel) =
-  if is_race_case ops then () else
-  let (pkg, progs, sched, expl) = parse ops in
-  let nbytes = Stdlib.List.fold_left (fun a pr -> Stdlib.List.fold_left (fun a o -> match o with OPkt p -> a + Stdlib.List.length p.p_bytes | _ -> a) a pr) 0 progs in
-  if expl = 0 && nbytes <= 400 then
-    match pkg with
-    | "t" -> to_coq_inst tcp_inst "run_tcp" "tc_init" "false" cfg_tcp progs sched idx out
-    | "r" | "ro" -> to_coq_inst rsm_inst "run_rsm" "rc_init" "existsb (fun o => r_unsup (c_st o)) (s_objs s)" (rsm_cfg pkg) progs sched idx out
-    | _ -> ()
-let registered_coq = Registry.register_coq "C12" ("From GP Require Import Base C12Model.\n", to_coq)
